@@ -63,7 +63,16 @@ def have_ctx() -> bool:
     return bool(_CURRENT)
 
 
+DEADLINE = {"hit": False}
+
+
+class DeadlineHit(BaseException):
+    pass
+
+
 def _timed_check(solver: z3.Solver, *assumptions) -> str:
+    if DEADLINE["hit"]:
+        raise DeadlineHit()
     t = time.time()
     r = solver.check(*assumptions)
     dt = time.time() - t
